@@ -6,6 +6,7 @@ Import ListNotations.
 Require Import BS.Gen.C03_params BS.C03.Model BS.C03.Proofs BS.C03.Safety.
 
 Section Lock.
+Variable clo : bool.
 Variable eda : bool.
 Variable g : list tnode.
 
@@ -13,7 +14,7 @@ Variable g : list tnode.
 
 Lemma main_top_err k ev w acc :
   serr (est ev) = true ->
-  exists s', main_top eda g (S k) ev w acc = (mkE (eroots ev) true s' [] [] (Some true), w, acc).
+  exists s', main_top clo eda g (S k) ev w acc = (mkE (eroots ev) true s' [] [] (Some true), w, acc).
 Proof.
   intro He. cbn [main_top].
   set (s1 := enqueue_all eda g (wst w) (est ev) (eroots ev)).
@@ -24,12 +25,12 @@ Qed.
 Lemma step_main_err ev w t rest :
   eres ev = None -> edonec ev = t :: rest -> wst w t = TErr ->
   exists s' w' runs,
-    step_main eda g ev w = (mkE (eroots ev) true s' [] [] (Some true), w', runs) /\ wstep w w' runs.
+    step_main clo eda g ev w = (mkE (eroots ev) true s' [] [] (Some true), w', runs) /\ wstep clo w w' runs.
 Proof.
   intros Hr Hd Ht. unfold step_main. rewrite Hr, Hd. unfold ret. rewrite Ht. cbn [ret_class].
   unfold main_cont. cbn [est]. unfold sdone at 1. cbn [serr set_err orb negb andb].
-  match goal with |- context [dispatch ?e w] => destruct (dispatch e w) as [[ev1 w1] runs1] eqn:Dp end.
-  destruct (dispatch_spec _ _ _ _ _ Dp) as [Ws [_ [Es [Er _]]]]. cbn [est eroots] in Es, Er.
+  match goal with |- context [dispatch clo ?e w] => destruct (dispatch clo e w) as [[ev1 w1] runs1] eqn:Dp end.
+  destruct (dispatch_spec _ _ _ _ _ _ Dp) as [Ws [_ [Es [Er _]]]]. cbn [est eroots] in Es, Er.
   assert (He : serr (est ev1) = true) by (rewrite Es; reflexivity).
   destruct (main_top_err 3 ev1 w1 runs1 He) as [s' Hs]. unfold main_fuel. rewrite Hs, Er.
   exists s', w1, runs1. split; [reflexivity | exact Ws].
@@ -51,9 +52,9 @@ Proof.
 Qed.
 
 Lemma quiesce_quiet k w ev acc :
-  quiet1 w ev -> quiesce eda g (S k) (S1 w ev) acc = (S1 w ev, acc, true).
+  quiet1 w ev -> quiesce_v clo eda g (S k) (S1 w ev) acc = (S1 w ev, acc, true).
 Proof.
-  intro Q. cbn [quiesce]. unfold sched_wait, sched_main, S1, get_ev. simpl.
+  intro Q. cbn [quiesce_v]. unfold sched_wait, sched_main, S1, get_ev. simpl.
   rewrite (ready_waiters_nil w ev Q). destruct Q as [Q _]. rewrite Q. reflexivity.
 Qed.
 
@@ -71,12 +72,12 @@ Proof.
 Qed.
 
 (* a waiter that is not there (any more) does nothing *)
-Lemma step_wait_none ev w t : find_waiter t (ewait ev) = None -> step_wait ev w t = (ev, w).
+Lemma step_wait_none ev w t : find_waiter t (ewait ev) = None -> step_wait clo ev w t = (ev, w).
 Proof. intro H. unfold step_wait. rewrite H. destruct (eres ev); reflexivity. Qed.
 
 Lemma exec_wait_noop : forall n w ev t,
   find_waiter t (ewait ev) = None ->
-  exists tr, exec eda g (S1 w ev) (map (LWait 0) (repeat t n)) = (S1 w ev, tr) /\ runs_of tr = [].
+  exists tr, exec_v clo eda g (S1 w ev) (map (LWait 0) (repeat t n)) = (S1 w ev, tr) /\ runs_of tr = [].
 Proof.
   induction n as [|n IH]; intros w ev t H; simpl.
   - exists []. split; reflexivity.
@@ -121,24 +122,24 @@ Lemma sched_main_S1 w ev : sched_main (S1 w ev) = repeat (LMain 0) (length (edon
 Proof. unfold sched_main, S1, get_ev. simpl. apply app_nil_r. Qed.
 
 Lemma step_wait_S1 w ev t :
-  step eda g (S1 w ev) (LWait 0 t) = (S1 (snd (step_wait ev w t)) (fst (step_wait ev w t)), []).
-Proof. unfold S1. simpl. unfold get_ev. simpl. destruct (step_wait ev w t). reflexivity. Qed.
+  step_v clo eda g (S1 w ev) (LWait 0 t) = (S1 (snd (step_wait clo ev w t)) (fst (step_wait clo ev w t)), []).
+Proof. unfold S1. simpl. unfold get_ev. simpl. destruct (step_wait clo ev w t). reflexivity. Qed.
 
 Lemma step_main_S1 w ev :
-  step eda g (S1 w ev) (LMain 0) =
-  (S1 (snd (fst (step_main eda g ev w))) (fst (fst (step_main eda g ev w))),
-   map (pair 0) (snd (step_main eda g ev w))).
-Proof. unfold S1. simpl. unfold get_ev. simpl. destruct (step_main eda g ev w) as [[a b] c]. reflexivity. Qed.
+  step_v clo eda g (S1 w ev) (LMain 0) =
+  (S1 (snd (fst (step_main clo eda g ev w))) (fst (fst (step_main clo eda g ev w))),
+   map (pair 0) (snd (step_main clo eda g ev w))).
+Proof. unfold S1. simpl. unfold get_ev. simpl. destruct (step_main clo eda g ev w) as [[a b] c]. reflexivity. Qed.
 
 Lemma exec_waits w ev t r n :
   eres ev = None -> find_waiter t (ewait ev) = Some r -> ge_ok (wst w t) = true ->
   let ev2 := mkE (eroots ev) (estarted ev) (est ev)
                  (filter (fun p => negb (Nat.eqb t (fst p))) (ewait ev)) (edonec ev ++ [t]) None in
-  let w2 := if r then bookkeep w t else w in
-  exists tr, exec eda g (S1 w ev) (map (LWait 0) (repeat t (S n))) = (S1 w2 ev2, tr) /\ runs_of tr = [].
+  let w2 := if r then bookkeep clo w t else w in
+  exists tr, exec_v clo eda g (S1 w ev) (map (LWait 0) (repeat t (S n))) = (S1 w2 ev2, tr) /\ runs_of tr = [].
 Proof.
-  intros Hr F G ev2 w2. cbn [repeat map exec]. rewrite step_wait_S1.
-  assert (X : step_wait ev w t = (ev2, w2)).
+  intros Hr F G ev2 w2. cbn [repeat map exec_v]. rewrite step_wait_S1.
+  assert (X : step_wait clo ev w t = (ev2, w2)).
   { unfold step_wait. rewrite Hr, F, G. reflexivity. }
   rewrite X. cbn [fst snd].
   destruct (exec_wait_noop n w2 ev2 t (find_waiter_filter t (ewait ev))) as [tr [E R]]. rewrite E.
@@ -152,31 +153,31 @@ Lemma quiesce_round k w ev t r acc :
   (forall p, In p (ewait ev) -> fst p <> t -> ge_ok (wst w (fst p)) = false) ->
   let ev2 := mkE (eroots ev) (estarted ev) (est ev)
                  (filter (fun p => negb (Nat.eqb t (fst p))) (ewait ev)) [t] None in
-  let w2 := if r then bookkeep w t else w in
-  quiesce eda g (S k) (S1 w ev) acc =
-  quiesce eda g k (S1 (snd (fst (step_main eda g ev2 w2))) (fst (fst (step_main eda g ev2 w2))))
-          (acc ++ map (pair 0) (snd (step_main eda g ev2 w2))).
+  let w2 := if r then bookkeep clo w t else w in
+  quiesce_v clo eda g (S k) (S1 w ev) acc =
+  quiesce_v clo eda g k (S1 (snd (fst (step_main clo eda g ev2 w2))) (fst (fst (step_main clo eda g ev2 w2))))
+          (acc ++ map (pair 0) (snd (step_main clo eda g ev2 w2))).
 Proof.
   intros Hr Hd F G Hq ev2 w2.
   assert (RW : exists n, ready_waiters ev w = repeat t (S n)).
   { unfold ready_waiters. rewrite Hr. apply ready_repeat; [eexists; exact F | exact G | exact Hq]. }
   destruct RW as [n RW].
-  cbn [quiesce]. rewrite sched_wait_S1, RW.
+  cbn [quiesce_v]. rewrite sched_wait_S1, RW.
   destruct (exec_waits w ev t r n Hr F G) as [tr [E R]]. rewrite Hd in E. cbn [app] in E. fold ev2 w2 in E.
   cbn [repeat map] in *. rewrite E. rewrite sched_main_S1. cbn [edonec ev2 length repeat].
-  cbn [exec]. rewrite step_main_S1. rewrite R. unfold runs_of. cbn [flat_map snd app].
+  cbn [exec_v]. rewrite step_main_S1. rewrite R. unfold runs_of. cbn [flat_map snd app].
   rewrite app_nil_r. reflexivity.
 Qed.
 
 (* ------------------------------------------------------------------ fatal_reported, lost_limit *)
 
-Lemma bookkeep_other w t : wst w t <> TOk -> wst w t <> TLost -> bookkeep w t = w.
+Lemma bookkeep_other w t : wst w t <> TOk -> wst w t <> TLost -> bookkeep clo w t = w.
 Proof. intros A B. unfold bookkeep. destruct (wst w t); try reflexivity; congruence. Qed.
 
-Definition set_state (w : world) (t : nat) (s : tstate) : world := mkW (upd (wst w) t s) (wcl w).
+Definition set_state (w : world) (t : nat) (s : tstate) : world := mkW (upd (wst w) t s) (wcl w) (wlu w).
 
 Lemma lock_step_set w ev t s :
-  lock_step eda g (S1 w ev) (LSet t s) = quiesce eda g (quiesce_fuel g) (S1 (set_state w t s) ev) [].
+  lock_step_v clo eda g (S1 w ev) (LSet t s) = quiesce_v clo eda g (quiesce_fuel g) (S1 (set_state w t s) ev) [].
 Proof. reflexivity. Qed.
 
 Lemma quiesce_fuel_SS : exists k, quiesce_fuel g = S (S k).
@@ -195,7 +196,7 @@ Qed.
 Theorem fatal_reported w ev t r :
   eres ev = None -> quiet1 w ev -> find_waiter t (ewait ev) = Some r ->
   exists sy' runs,
-    lock_step eda g (S1 w ev) (LSet t TErr) = (sy', runs, true) /\
+    lock_step_v clo eda g (S1 w ev) (LSet t TErr) = (sy', runs, true) /\
     eres (get_ev sy' 0) = Some true.
 Proof.
   intros Hr Q F. rewrite lock_step_set. destruct quiesce_fuel_SS as [k ->].
@@ -204,7 +205,7 @@ Proof.
   cbv zeta in QR.
   set (ev2 := mkE (eroots ev) (estarted ev) (est ev)
                   (filter (fun p => negb (Nat.eqb t (fst p))) (ewait ev)) [t] None) in *.
-  set (w2 := if r then bookkeep (set_state w t TErr) t else set_state w t TErr) in *.
+  set (w2 := if r then bookkeep clo (set_state w t TErr) t else set_state w t TErr) in *.
   assert (W2 : wst w2 t = TErr).
   { subst w2. destruct r; [rewrite bookkeep_other|]; simpl; rewrite upd_same; try reflexivity; discriminate. }
   destruct (step_main_err ev2 w2 t [] eq_refl eq_refl W2) as [s' [w' [runs [M _]]]].
@@ -217,30 +218,32 @@ Qed.
    loss reaches maxConsecutiveLost: the task is put in ERR and Eval returns an error. *)
 Theorem lost_limit w ev t :
   eres ev = None -> quiet1 w ev -> find_waiter t (ewait ev) = Some true ->
+  (clo = true -> wlu w t = true) ->
   (wcl w t + 1 >= max_consecutive_lost)%Z ->
   exists sy' runs,
-    lock_step eda g (S1 w ev) (LSet t TLost) = (sy', runs, true) /\
+    lock_step_v clo eda g (S1 w ev) (LSet t TLost) = (sy', runs, true) /\
     eres (get_ev sy' 0) = Some true /\ wst (sw sy') t = TErr.
 Proof.
-  intros Hr Q F Hc. rewrite lock_step_set. destruct quiesce_fuel_SS as [k ->].
+  intros Hr Q F Hlu Hc. rewrite lock_step_set. destruct quiesce_fuel_SS as [k ->].
   assert (G : ge_ok (wst (set_state w t TLost) t) = true) by (simpl; rewrite upd_same; reflexivity).
   pose proof (quiesce_round (S k) (set_state w t TLost) ev t true [] Hr (proj1 Q) F G (others_quiet w ev t TLost Q Hr)) as QR.
   cbv zeta in QR.
   set (ev2 := mkE (eroots ev) (estarted ev) (est ev)
                   (filter (fun p => negb (Nat.eqb t (fst p))) (ewait ev)) [t] None) in *.
-  set (w2 := bookkeep (set_state w t TLost) t) in *.
+  set (w2 := bookkeep clo (set_state w t TLost) t) in *.
   assert (W2 : wst w2 t = TErr).
   { subst w2. unfold bookkeep. simpl. rewrite upd_same.
     assert (X : (wcl w t + 1 >=? max_consecutive_lost)%Z = true) by (apply Z.geb_le; lia).
-    rewrite X. simpl. apply upd_same. }
+    destruct clo.
+    - unfold count_lost. simpl. rewrite (Hlu eq_refl), X. simpl. apply upd_same.
+    - rewrite X. simpl. apply upd_same. }
   destruct (step_main_err ev2 w2 t [] eq_refl eq_refl W2) as [s' [w' [runs [M Ws]]]].
   rewrite M in QR. cbn [fst snd] in QR. rewrite QR. rewrite quiesce_quiet; [|split; [reflexivity | discriminate]].
   eexists. eexists. split; [reflexivity|]. split; [reflexivity|]. simpl.
   (* the main loop never changes a task that is in ERR *)
-  destruct Ws as [_ [_ [A B]]].
   destruct (in_dec Nat.eq_dec t runs) as [I|I].
-  - destruct (A t I) as [[X|X] _]; congruence.
-  - rewrite (B t I). exact W2.
+  - destruct (wstep_run _ _ _ _ _ Ws I) as [[X|X] _]; congruence.
+  - destruct (wstep_other _ _ _ _ _ Ws I) as [X|[_ [X _]]]; [rewrite X; exact W2 | congruence].
 Qed.
 
 
@@ -326,39 +329,76 @@ End Sched.
 
 (* ------------------------------------------------------------------ dispatch emits what is LOST or INIT *)
 
-Lemma dispatch_fold_runs t : forall ts w ws runs w' ws' runs',
-  fold_left dispatch_one ts (w, ws, runs) = (w', ws', runs') ->
+Lemma tchg_false a b : tchg clo a b false ->
+  a = b \/ (clo = true /\ exists c, a = (TLost, c, true) /\ (c + 1 >= max_consecutive_lost)%Z /\
+                                     b = (TErr, (c + 1)%Z, false)).
+Proof.
+  intro H. inversion H as [v| | | | |c Hc Hge]; [left; congruence|]. right. split; [exact Hc|]. exists c. repeat split. exact Hge.
+Qed.
+
+(* a task that dispatch would resubmit: INIT, or LOST and not at its last chance *)
+Definition resub_ok (w : world) (t : nat) : Prop :=
+  wst w t = TInit \/
+  (wst w t = TLost /\ (clo = true -> wlu w t = true -> (wcl w t + 1 < max_consecutive_lost)%Z)).
+
+Lemma dispatch_one_runs t w ws runs u w' ws' runs' :
+  dispatch_one clo (w, ws, runs) u = (w', ws', runs') ->
   (In t runs -> In t runs') /\
-  (In t ts -> wst w t = TLost \/ wst w t = TInit -> In t runs').
+  (u = t -> resub_ok w t -> In t runs') /\
+  (u <> t -> resub_ok w t -> resub_ok w' t).
+Proof.
+  intro E. destruct (dispatch_one_single _ _ _ _ _ _ _ _ E) as [b [_ [Er Ws]]].
+  split; [intro H; rewrite Er; apply in_or_app; left; exact H|]. split.
+  - intros -> Hok. unfold dispatch_one in E.
+    set (w0 := if clo && st_eqb (wst w t) TLost then fst (count_lost w t) else w) in *.
+    assert (S0 : wst w0 t = TInit \/ wst w0 t = TLost).
+    { subst w0. destruct Hok as [Hi|[Hl Hc]].
+      - rewrite Hi. simpl. rewrite andb_false_r. left. exact Hi.
+      - right. destruct clo; [|exact Hl]. rewrite Hl. simpl.
+        destruct (count_lost_tv w t) as [_ [C2 [_ C4]]].
+        destruct (wlu w t) eqn:L; [|rewrite (C2 eq_refl); exact Hl].
+        specialize (C4 eq_refl (Hc eq_refl eq_refl)). unfold tv in C4. injection C4 as X _ _. rewrite X. exact Hl. }
+    assert (R : st_eqb (if st_eqb (wst w0 t) TLost then TInit else wst w0 t) TInit = true)
+      by (destruct S0 as [X|X]; rewrite X; reflexivity).
+    rewrite R in E. inversion E; subst. apply in_or_app. right. left. reflexivity.
+  - intros Ne Hok. destruct Ws as [_ A]. specialize (A t).
+    assert (M : mem t (if b then [u] else []) = false).
+    { destruct b; [|reflexivity]. unfold mem. simpl. rewrite orb_false_r. apply Nat.eqb_neq. congruence. }
+    rewrite M in A. unfold resub_ok in *.
+    destruct (tchg_false _ _ A) as [Eq|[Cl [c [Ea [Ge Eb]]]]]; unfold tv in *.
+    + injection Eq as E1 E2 E3. rewrite <- E1, <- E2, <- E3. exact Hok.
+    + exfalso. injection Ea as E1 E2 E3. destruct Hok as [X|[_ X]]; [congruence|].
+      specialize (X Cl E3). lia.
+Qed.
+
+Lemma dispatch_fold_runs t : forall ts w ws runs w' ws' runs',
+  fold_left (dispatch_one clo) ts (w, ws, runs) = (w', ws', runs') ->
+  (In t runs -> In t runs') /\
+  (In t ts -> resub_ok w t -> In t runs').
 Proof.
   induction ts as [|u r IH]; intros w ws runs w' ws' runs' E; cbn [fold_left] in E.
   - inversion E; subst. split; [auto | intros []].
-  - destruct (dispatch_one (w, ws, runs) u) as [[w1 ws1] runs1] eqn:D.
+  - destruct (dispatch_one clo (w, ws, runs) u) as [[w1 ws1] runs1] eqn:D.
     destruct (IH _ _ _ _ _ _ E) as [K1 K2].
-    unfold dispatch_one in D.
-    destruct (st_eqb (if st_eqb (wst w u) TLost then TInit else wst w u) TInit) eqn:R; inversion D; subst; clear D.
-    + split.
-      * intro H. apply K1. apply in_or_app. left. exact H.
-      * intros [<-|Hin] Hs.
-        -- apply K1. apply in_or_app. right. left. reflexivity.
-        -- destruct (Nat.eq_dec t u) as [->|Ne]; [apply K1; apply in_or_app; right; left; reflexivity|].
-           apply (K2 Hin). simpl. rewrite upd_other by exact Ne. exact Hs.
-    + split; [exact K1|]. intros [<-|Hin] Hs; [|apply (K2 Hin Hs)].
-      exfalso. destruct Hs as [Hs|Hs]; rewrite Hs in R; simpl in R; discriminate.
+    destruct (dispatch_one_runs t _ _ _ _ _ _ _ D) as [D1 [D2 D3]].
+    split; [intro H; apply K1, D1, H|].
+    intros Hin Hok. destruct (Nat.eq_dec u t) as [Eq|Ne].
+    + apply K1, D2; assumption.
+    + destruct Hin as [Hin|Hin]; [contradiction|]. apply (K2 Hin), D3; assumption.
 Qed.
 
-Lemma main_top_acc : forall k ev w acc, incl acc (snd (main_top eda g k ev w acc)).
+Lemma main_top_acc : forall k ev w acc, incl acc (snd (main_top clo eda g k ev w acc)).
 Proof.
   induction k as [|k IH]; intros ev w acc; simpl; [apply incl_refl|].
   destruct (sdone _); [apply incl_refl|]. destruct (is_nil _); [apply incl_refl|].
-  destruct (dispatch _ w) as [[ev1 w1] runs]. eapply incl_tran; [|apply IH]. apply incl_appl, incl_refl.
+  destruct (dispatch clo _ w) as [[ev1 w1] runs]. eapply incl_tran; [|apply IH]. apply incl_appl, incl_refl.
 Qed.
 
-Lemma quiesce_acc : forall k sy acc, incl acc (snd (fst (quiesce eda g k sy acc))).
+Lemma quiesce_acc : forall k sy acc, incl acc (snd (fst (quiesce_v clo eda g k sy acc))).
 Proof.
-  induction k as [|k IH]; intros sy acc; cbn [quiesce]; [apply incl_refl|].
+  induction k as [|k IH]; intros sy acc; cbn [quiesce_v]; [apply incl_refl|].
   destruct (sched_wait sy) as [|l lw] eqn:W; [destruct (sched_main sy) as [|m lm] eqn:M; [apply incl_refl|]|];
-    repeat (match goal with |- context [exec ?a ?b ?c ?d] => destruct (exec a b c d) as [? ?] end);
+    repeat (match goal with |- context [exec_v ?a ?b ?c ?d ?e] => destruct (exec_v a b c d e) as [? ?] end);
     (eapply incl_tran; [|apply IH]); apply incl_appl, incl_refl.
 Qed.
 
@@ -370,20 +410,22 @@ Theorem lost_resubmitted (Hwf : wf g) w ev t :
   quiet1 w ev -> find_waiter t (ewait ev) = Some true ->
   (wcl w t + 1 < max_consecutive_lost)%Z ->
   deps_done eda g (wst w) t ->
-  In (0, t) (snd (fst (lock_step eda g (S1 w ev) (LSet t TLost)))).
+  In (0, t) (snd (fst (lock_step_v clo eda g (S1 w ev) (LSet t TLost)))).
 Proof.
   intros Hr O Et Q F Hc Hd. rewrite lock_step_set. destruct quiesce_fuel_SS as [k ->].
   assert (G : ge_ok (wst (set_state w t TLost) t) = true) by (simpl; rewrite upd_same; reflexivity).
   rewrite (quiesce_round (S k) (set_state w t TLost) ev t true [] Hr (proj1 Q) F G (others_quiet w ev t TLost Q Hr)).
   set (ev2 := mkE (eroots ev) (estarted ev) (est ev)
                   (filter (fun p => negb (Nat.eqb t (fst p))) (ewait ev)) [t] None).
-  set (w2 := bookkeep (set_state w t TLost) t).
+  set (w2 := bookkeep clo (set_state w t TLost) t).
   apply quiesce_acc. simpl. apply in_map.
   (* the world after the waiter's bookkeeping: t still LOST, everything else as before *)
   assert (W2 : wst w2 = upd (wst w) t TLost).
   { subst w2. unfold bookkeep. simpl. rewrite upd_same.
     assert (X : (wcl w t + 1 >=? max_consecutive_lost)%Z = false) by (rewrite Z.geb_leb; apply Z.leb_gt; lia).
-    rewrite X. reflexivity. }
+    destruct clo.
+    - unfold count_lost. simpl. destruct (wlu w t); [rewrite X|]; reflexivity.
+    - rewrite X. reflexivity. }
   assert (W2t : wst w2 t = TLost) by (rewrite W2; apply upd_same).
   assert (Hd2 : deps_done eda g (wst w2) t).
   { intros d Hdd v Hv. rewrite W2. destruct (Nat.eq_dec v t) as [->|Ne].
@@ -405,12 +447,16 @@ Proof.
   assert (B : negb (sdone s1) && is_nil (stodo s1) = false).
   { destruct (stodo s1); [destruct T1|]. apply andb_false_r. }
   rewrite B.
-  match goal with |- context [dispatch ?e w2] => destruct (dispatch e w2) as [[ev1 w1] runs1] eqn:Dp end.
+  match goal with |- context [dispatch clo ?e w2] => destruct (dispatch clo e w2) as [[ev1 w1] runs1] eqn:Dp end.
   apply main_top_acc.
   unfold dispatch in Dp. cbn [est runnable ewait] in Dp.
-  destruct (fold_left dispatch_one (stodo s1) (w2, filter (fun p => negb (Nat.eqb t (fst p))) (ewait ev), [])) as [[wx wsx] rx] eqn:Fd.
+  destruct (fold_left (dispatch_one clo) (stodo s1) (w2, filter (fun p => negb (Nat.eqb t (fst p))) (ewait ev), [])) as [[wx wsx] rx] eqn:Fd.
   inversion Dp; subst.
-  apply (proj2 (dispatch_fold_runs t _ _ _ _ _ _ _ Fd) T1). left. exact W2t.
+  apply (proj2 (dispatch_fold_runs t _ _ _ _ _ _ _ Fd) T1). right. split; [exact W2t|].
+  intros Cl Lu. exfalso. clear -Cl Lu Hc. subst w2. unfold bookkeep in Lu. simpl in Lu. rewrite upd_same in Lu.
+  rewrite Cl in Lu. unfold count_lost in Lu. simpl in Lu.
+  assert (X : (wcl w t + 1 >=? max_consecutive_lost)%Z = false) by (rewrite Z.geb_leb; apply Z.leb_gt; lia).
+  destruct (wlu w t) eqn:L; [rewrite X in Lu; simpl in Lu; rewrite upd_same in Lu | simpl in Lu; rewrite L in Lu]; discriminate.
 Qed.
 
 End Lock.
